@@ -341,6 +341,24 @@ def cause(e, mh, carried):
     return "+".join(sorted(labels)) or "-"
 
 
+CLASS_CAUSES = ("negative-half-hour-timezone", "null-base", "xml-source-into-chk-target", "kind-change", "multiline-property", "dir-rename")
+
+
+def class_sig(oracle, family, e, mh, carried):
+    """Signature of a failed write / clean install.  For the reported defect classes a closed
+    one: [oracle, bundle-old|bundle-4|directive, class]; label classes (kind-change,
+    multiline-property, dir-rename: first one present) only count for the 0.8/0.9 formats,
+    where they are guarded.  Anything else: + exception type."""
+    c = cause(e, mh, carried)
+    if c in CLASS_CAUSES[:3]:
+        return [oracle, family, c]
+    if family == "bundle-old":
+        for k in CLASS_CAUSES[3:]:
+            if k in c.split("+"):
+                return [oracle, family, k]
+    return [oracle, family, "-", type(e).__name__]
+
+
 def fresh_target(name, fmt, src_repo, base):
     """A repository on a new simulated store holding exactly the ancestry of `base`."""
     url = world.new_store(name)
@@ -438,7 +456,7 @@ def _bundle_part(sim, plan, mh, srepo, bfmt, src_fmt, tgt_fmt, strict, read_bund
     except Exception as e:  # noqa: BLE001
         import traceback
 
-        sim.fail("write", ["write", f"bundle-{bfmt}", type(e).__name__, cause(e, mh, carried)], f"[{src_fmt}->{tgt_fmt}] write_bundle({target}, base={base}, format={bfmt}) failed: {type(e).__name__}: {e}\n{traceback.format_exc()[-1500:]}")
+        sim.fail("write", class_sig("write", "bundle-4" if bfmt == "4" else "bundle-old", e, mh, carried), f"[{src_fmt}->{tgt_fmt}] write_bundle({target}, base={base}, format={bfmt}) failed: {type(e).__name__}: {e}\n{traceback.format_exc()[-1500:]}")
     data = out.getvalue()
     import hashlib
 
@@ -451,7 +469,7 @@ def _bundle_part(sim, plan, mh, srepo, bfmt, src_fmt, tgt_fmt, strict, read_bund
     except Exception as e:  # noqa: BLE001
         import traceback
 
-        sim.fail("install", ["install", f"bundle-{bfmt}", type(e).__name__, cause(e, mh, carried)], f"[{src_fmt}->{tgt_fmt}] installing the untouched {bfmt} bundle ({carried}, base {base}) failed: {type(e).__name__}: {e}\n{traceback.format_exc()[-1800:]}")
+        sim.fail("install", class_sig("install", "bundle-4" if bfmt == "4" else "bundle-old", e, mh, carried), f"[{src_fmt}->{tgt_fmt}] installing the untouched {bfmt} bundle ({carried}, base {base}) failed: {type(e).__name__}: {e}\n{traceback.format_exc()[-1800:]}")
     if got_target != target.encode():
         sim.fail("install_target", ["install_target"] + sigbase, f"install_revisions returned {got_target}, the bundle target is {target}")
     storesim.clear_caches()
@@ -643,7 +661,7 @@ def _directive_part(sim, plan, mh, sb, src_fmt, tgt_fmt, strict):
     except Exception as e:  # noqa: BLE001
         import traceback
 
-        sim.fail("directive_install", ["directive_install", type(e).__name__, cause(e, mh, carried)], f"[{src_fmt}->{tgt_fmt}, {sigbase[2]}] install_revisions of the parsed directive failed: {type(e).__name__}: {e}\n{traceback.format_exc()[-1500:]}")
+        sim.fail("directive_install", class_sig("directive_install", "directive", e, mh, carried), f"[{src_fmt}->{tgt_fmt}, {sigbase[2]}] install_revisions of the parsed directive failed: {type(e).__name__}: {e}\n{traceback.format_exc()[-1500:]}")
     if got != target.encode():
         sim.fail("directive_install", ["directive_install"] + sigbase + ["target"], f"install_revisions returned {got} for {target}")
     absent = compare_revisions(sim, srepo, Branch.open(histsim.scratch("submit1")).repository, carried, strict, ["directive_install"] + sigbase, "directive install")
